@@ -7,18 +7,23 @@
 (*              -> tb)   [r is a string prefix of rs]                          *)
 (*          tb: attribute z;  relationships q (to-one -> ta), s (to-many -> ta) *)
 (*          tc: no field at all                                                *)
+(*          td: attribute w; relationship q (to-one -> tb); reached by ta.t    *)
 (* A request: [frags, fields: [type -> Seq(name)], sort: Seq(rule),            *)
 (*             include: Seq(path), filter, page, unknown]                      *)
 (*   rule: a name with an optional leading "-", as [name, desc]                *)
 (*   path: Seq(relationship name)                                              *)
 EXTENDS Integers, Sequences, FiniteSets, TLC, SequencesExt
 
-Types == {"ta", "tb", "tc"}
-AttrsOf(t) == CASE t = "ta" -> {"x", "y"} [] t = "tb" -> {"z"} [] OTHER -> {}
-RelsOf(t)  == CASE t = "ta" -> {"r", "rs"} [] t = "tb" -> {"q", "s"} [] OTHER -> {}
+Types == {"ta", "tb", "tc", "td"}
+AttrsOf(t) == CASE t = "ta" -> {"x", "y"} [] t = "tb" -> {"z"} [] t = "td" -> {"w"} [] OTHER -> {}
+RelsOf(t)  == CASE t = "ta" -> {"r", "rs", "t"} [] t = "tb" -> {"q", "s"} [] t = "td" -> {"q"} [] OTHER -> {}
 FieldsOf(t) == AttrsOf(t) \cup RelsOf(t)
-Target(t, f) == IF t = "ta" THEN "tb" ELSE "ta"
-ToOne(t, f) == f \in {"r", "q"}
+\* tb.q and td.q carry the same name and lead to different types: r.q and t.q meet them at the same depth
+Target(t, f) == CASE t = "ta" /\ f = "t" -> "td"
+                  [] t = "ta" -> "tb"
+                  [] t = "td" -> "tb"
+                  [] OTHER -> "ta"
+ToOne(t, f) == f \in {"r", "q", "t"}
 
 AsSet(q) == {q[i] : i \in 1..Len(q)}
 NoDup(q) == \A i, j \in 1..Len(q) : q[i] = q[j] => i = j
